@@ -1,5 +1,5 @@
 SPECIFICATION Spec
-CONSTANTS MaxDepth = 3  MaxUpdates = 1  Mode = "obj_deep"  ShareSet = {TRUE, FALSE}  NegIdx = TRUE  Rich = FALSE
+CONSTANTS MaxDepth = 3  MaxUpdates = 1  Mode = "obj_deep"  ShareSet = {FALSE}  NegIdx = FALSE  Rich = FALSE  CreateNew = TRUE
 INVARIANT TypeOK
 INVARIANT Persistent
 INVARIANT PathOnly
@@ -7,6 +7,7 @@ INVARIANT TypeKept
 INVARIANT ValueUntouched
 INVARIANT ResultFresh
 INVARIANT SpineOnly
+INVARIANT NewSlotAdded
 INVARIANT ChildrenOlder
 PROPERTY AppendOnly
 CHECK_DEADLOCK FALSE
